@@ -50,6 +50,7 @@ func TestVerifC05RollbackExhaustive(t *testing.T) {
 	const nA, nB = 192, 288
 	for idx := 0; idx < nA+nB; idx++ {
 		r := h.Begin(idx)
+		c05DeclReset(h) // round 9: registry of the pod objects declared in this case
 		if r == nil {
 			continue
 		}
